@@ -34,3 +34,11 @@ Definition reply_owned (inbound : properties) (T C : N) : owned :=
       | Some c => if C <? lenN c then OwnErr else OwnOk t (Some c)
       end
   end.
+
+(* OwnedResponseTarget::publication(payload) followed by Publication::properties(user): built from the copy alone *)
+Definition owned_publication (t : bytes) (c : option bytes) (user : list prop) : reply_pub :=
+  {| rp_topic := t;
+     rp_props := with_properties (match c with
+                                  | Some c => with_correlation (PSlice []) c
+                                  | None => PSlice []
+                                  end) user |}.
